@@ -96,7 +96,7 @@ fn c15_roundtrip_default() {
     kani::assume(v < (1u64 << 56));
     let bytes = v.as_vint().unwrap();
     let d = tools::read_vint(&bytes);
-    assert!(matches!(d, Ok(Some((dv, dl))) if dv == v && dl == bytes.len()), "C15d: decode(encode(v)) == v");
+    assert!(matches!(d, Ok(Some((dv, dl))) if dv == v && dl == bytes.len()), "C15/C01d: decode(encode(v)) == v");
     kani::cover!(bytes.len() == 8, "8-byte round trip reached");
 }
 
